@@ -219,6 +219,15 @@ public:
         m_countersVector.clear();
     }
 
+#if defined(APACHE_XALAN_C_VERIF)
+    // verification hook H1: logical size of the table
+    unsigned long
+    verifSize() const
+    {
+        return (unsigned long)(m_countersVector.size() + m_newFound.size());
+    }
+#endif
+
 private:
     // not implemented
     CountersTable();
